@@ -15,7 +15,11 @@ use super::TaskExtra;
 macro_rules! dispatch_event {
     ($fn:ident, $event_name:ident, $(&$item:ident), +) => {
         let handles = $fn.$event_name.clone();
+        #[cfg(feature = "verif")]
+        let _verif_guard = crate::verif::inflight();
         Handle::current().spawn(async move {
+            #[cfg(feature = "verif")]
+            let _verif_guard = _verif_guard;
             let handlers = handles.read().unwrap();
             for handle in handlers.iter() {
                 (handle)($(&$item),+);
@@ -27,7 +31,11 @@ macro_rules! dispatch_event {
 macro_rules! dispatch_key_event {
     ($fn:ident, $event_name:ident, $(&$item:ident), +) => {
         let handles = $fn.$event_name.clone();
+        #[cfg(feature = "verif")]
+        let _verif_guard = crate::verif::inflight();
         Handle::current().spawn(async move {
+            #[cfg(feature = "verif")]
+            let _verif_guard = _verif_guard;
             let handlers = handles.read().unwrap();
             for (_, handle) in handlers.iter() {
                 (handle)($(&$item),+);
@@ -189,6 +197,8 @@ impl Emitter {
 
     pub fn emit_message(&self, msg: &Message) {
         debug!("emit_message: {:?}", msg);
+        #[cfg(feature = "verif")]
+        crate::verif::on_gen(msg);
         let e = Event::new(&self.runtime.read().unwrap(), msg);
         dispatch_key_event!(self, messages, &e);
     }
